@@ -56,8 +56,13 @@ class MultivariateNormal(TMultivariateNormal, Distribution):
             self.__unbroadcasted_scale_tril = None
             self._validate_args = validate_args
             batch_shape = torch.broadcast_shapes(self.loc.shape[:-1], covariance_matrix.shape[:-2])
-
             event_shape = self.loc.shape[-1:]
+            # Every method below indexes / reshapes loc and the covariance with the distribution's batch shape:
+            # (lazily) expand whichever argument was passed with a smaller, broadcastable batch shape.
+            if self.loc.shape[:-1] != batch_shape:
+                self.loc = self.loc.expand(batch_shape + event_shape)
+            if covariance_matrix.shape[:-2] != batch_shape:
+                self._covar = covariance_matrix.expand(batch_shape + covariance_matrix.shape[-2:])
 
             # TODO: Integrate argument validation for LinearOperators into torch.distribution validation logic
             super(TMultivariateNormal, self).__init__(batch_shape, event_shape, validate_args=False)
